@@ -446,7 +446,7 @@ func (envs *Manager) CreateEnvironment(workflowPath string, userVars map[string]
 						log.WithField("partition", env.Id().String()).
 							WithField("state", envState).
 							Debug("could not transition failed auto-transitioning environment to ERROR, cleanup in progress")
-						env.setState("ERROR")
+						env.ForceState("ERROR")
 					}
 
 					envTasks := env.Workflow().GetTasks()
@@ -1011,7 +1011,7 @@ func (envs *Manager) handleIntegratedServiceEvent(evt event.IntegratedServiceEve
 									WithError(err).
 									Error("environment GO_ERROR transition failed after ODC_PARTITION_STATE_CHANGE ERROR event")
 							}
-							env.setState("ERROR")
+							env.ForceState("ERROR")
 						}
 					}()
 				}
@@ -1329,7 +1329,7 @@ func (envs *Manager) CreateAutoEnvironment(workflowPath string, userVars map[str
 				WithField("state", envState).
 				Debug("could not transition failed auto-transitioning environment to ERROR, cleanup in progress")
 			env.sendEnvironmentEvent(&event.EnvironmentEvent{Message: "transition ERROR failed, forcing", EnvironmentID: env.Id().String(), Error: err})
-			env.setState("ERROR")
+			env.ForceState("ERROR")
 		}
 
 		envTasks := env.Workflow().GetTasks()
